@@ -70,7 +70,9 @@ def check(scn, tr, out):
                 limited = True
             if opt["est"]:
                 b = c["bounds"].get(a["sid"])
-                if b is None:
+                if b is None and opt["est"] == "loose":
+                    pass  # this estimator deliberately says nothing about the session: no bound to respect
+                elif b is None:
                     out("estimator:no-bound", "%s: estimator holds no bound for session %s" % (ctx, a["sid"]), None, None)
                 else:
                     allowed = max(b, evse.min_rate if opt["unint"] else 0.0)
